@@ -130,4 +130,72 @@ def check_C05(pid, tier, seed, verdict):
                  "draws are forced through the cfg-guarded hook only to visit range ends; the oracle stays range-based"]
 
 
-CHECKS = {"C03": check_C03, "C04": check_C04, "C05": check_C05}
+# ------------------------------------------------------------------------------- C01 / C02 / C08
+MUX_OWNER = {
+    "reader obtained bytes of a different stream": "C02",
+    "data or EOF on a stream that was never opened": "C02",
+    "end-of-stream although the writer has not finished": "C02",
+    "end-of-stream without close": "C02",
+    "stream tables do not hold exactly the open streams": "C02",
+    "the session's output does not parse / carries bytes of no submitted stream": "C02",
+    "end-of-stream before all data written before the close was delivered": "C08",
+    "writer finished but the reader never observed end-of-stream": "C08",
+}
+
+
+def _mux_owner(why):
+    return MUX_OWNER.get(why, "C01")
+
+
+def _mux(pid, tier, seed, verdict):
+    thorough = tier == "thorough"
+    mcs = [mc_must_hold(pid, verdict, "MC_Mux.tla", "MC_Mux6.cfg" if thorough else "MC_Mux.cfg"),
+           mc_must_hold(pid, verdict, "MC_Mux.tla", "MC_Mux_live.cfg")]
+    for d in ("EmptyChunkReadsZero", "FinDropsQueued", "StrayRoutedToLast"):
+        mcs.append(mc_must_fail(pid, "MC_Mux.tla", f"MC_Mux_dev_{d}.cfg"))
+    g = V.run_gen(pid, "MC_Mux.tla", "Gen_Mux.cfg", workers=1, simulate=f"num={6000 if thorough else 600}", seed=seed,
+                  timeout_s=600)
+    # -simulate prints a behaviour each time it reaches the generation depth; drop duplicates
+    uniq = {json.dumps(s, sort_keys=True): s for s in g["scenarios"]}
+    scs = list(uniq.values())
+    sp = os.path.join(V.workdir(pid), "gen.scn")
+    V.write_scenarios(sp, scs)
+    run = V.run_harness(pid, "mux", seed, tier, sp)
+    res = V.run_trace(pid, "Trace_Mux.tla", "Trace_Mux.cfg", run["trace"])
+    return mcs, scs, run, res
+
+
+def _mux_check(pid, tier, seed, verdict, rule, assumptions):
+    mcs, scs, run, res = _mux(pid, tier, seed, verdict)
+    mine = dict(res)
+    mine["bad"] = [b for b in res["bad"] if _mux_owner(b["why"]) == pid]
+    verdict.add_trace_result("mux", mine, run)
+    cnt = res["cnt"]
+    V.log(f"[{pid}] trace: {res['lines']} events, {cnt['scn']} scenarios, {cnt['read']} reads, {cnt['quiesce']} quiescence "
+          f"checks, bad({pid})={len(mine['bad'])} bad(other)={len(res['bad']) - len(mine['bad'])}")
+    cov = _cov(mcs, cnt["scn"], cnt["nontrivial"], rule, V.sample_descrs(run["descr"]), True,
+               dict(behaviours_generated=len(scs), trace_events=res["lines"], event_counts=cnt))
+    return cov, assumptions
+
+
+MUX_RULE = ("scenario = one real Session (server or client role) against a scripted peer replaying a TLC-simulated "
+            "behaviour of MC_Mux (SYN/PSH/FIN for open, finished, reused and never-opened ids; dispatch points; reads with "
+            "small and large buffers) or a random one, frames cut at random positions incl. inside headers; or a real "
+            "client/server pair with 1-5 streams, concurrent writers in both directions through send_data and "
+            "write_data_frame, chunks 0..131072 bytes, transport read sizes 1/7/100/4096 and capacities 1/7/4096; "
+            "non-trivial = scenarios in which at least one read was judged")
+
+
+def check_C01(pid, tier, seed, verdict):
+    return _mux_check(pid, tier, seed, verdict, MUX_RULE,
+                      ["payload bytes are position-coded (keyed generator); equality with the generator is judged in the harness",
+                       "virtual time: 'nothing in flight' = the paused-clock runtime is idle"])
+
+
+def check_C02(pid, tier, seed, verdict):
+    return _mux_check(pid, tier, seed, verdict, MUX_RULE,
+                      ["a duplicate SYN for an id that is currently open is outside the statement and not generated",
+                       "origin of foreign bytes is classified by matching the generators of the scenario's other flows"])
+
+
+CHECKS = {"C01": check_C01, "C02": check_C02, "C03": check_C03, "C04": check_C04, "C05": check_C05}
